@@ -1,11 +1,14 @@
 //! vf-eng-b: engine-level resource checks — C03 conservation per transaction, C04 supply/vault
 //! history invariant, C09 worktop/bucket/proof accounting, C10 funds behind live proofs.
 
+pub mod c03;
+pub mod c04;
 pub mod c09;
+pub mod c10;
 pub mod judge;
 pub mod mgen;
 pub mod session;
 
 pub fn checks() -> Vec<vf_core::Check> {
-    vec![c09::check()]
+    vec![c03::check(), c04::check(), c09::check(), c10::check()]
 }
